@@ -1,0 +1,34 @@
+//go:build verif
+
+// Contracts for package qrcode/encoder, read by the govc verification-condition generator in /verif.
+// Comments only.
+
+package encoder
+
+// ecIdx: position of an error-correction level in Version.ecBlocks (table order L, M, Q, H);
+// the level constants are L=1, M=0, Q=3, H=2
+//@ spec func ecIdx(l decoder.ErrorCorrectionLevel) int = int(l) == 1 ? 0 : (int(l) == 0 ? 1 : (int(l) == 3 ? 2 : 3))
+//@ pred validLevel(l decoder.ErrorCorrectionLevel) = 0 <= int(l) && int(l) <= 3
+
+// fits(n, v, l): n payload bits fit the data codewords of version v at level l
+//@ spec func fits(n int, v int, l decoder.ErrorCorrectionLevel) bool = decoder.dataCap2(decoder.VERSIONS[v-1], ecIdx(l)) >= (n + 7) / 8
+
+//@ func willFit(numInputBits int, version *decoder.Version, ecLevel decoder.ErrorCorrectionLevel) (r bool)
+//@   property C13
+//@   globals decoder.VERSIONS
+//@   requires validLevel(ecLevel) && 0 <= numInputBits && numInputBits <= 1<<40
+//@   requires exists v int :: 1 <= v && v <= 40 && version == decoder.VERSIONS[v-1]
+//@   ensures forall v int :: 1 <= v && v <= 40 && version == decoder.VERSIONS[v-1] ==> r == fits(numInputBits, v, ecLevel)
+//@   modifies nothing
+
+//@ func chooseVersion(numInputBits int, ecLevel decoder.ErrorCorrectionLevel) (r *decoder.Version, e gozxing.WriterException)
+//@   property C13
+//@   globals decoder.VERSIONS
+//@   requires validLevel(ecLevel) && 0 <= numInputBits && numInputBits <= 1<<40
+//@   ensures (r != nil) != (e != nil)
+//@   ensures r != nil ==> 1 <= r.versionNumber && r.versionNumber <= 40 && r == decoder.VERSIONS[r.versionNumber-1] && fits(numInputBits, r.versionNumber, ecLevel)
+//@   ensures r != nil ==> forall v int :: 1 <= v && v < r.versionNumber ==> !fits(numInputBits, v, ecLevel)
+//@   ensures r == nil ==> forall v int :: 1 <= v && v <= 40 ==> !fits(numInputBits, v, ecLevel)
+//@   loop 0: invariant 1 <= versionNum && versionNum <= 41
+//@   loop 0: invariant forall v int :: 1 <= v && v < versionNum ==> !fits(numInputBits, v, ecLevel)
+//@   loop 0: decreases 41 - versionNum
